@@ -146,7 +146,7 @@ class Tree:
             self._canonical_locals("local_names_norm.json")
 
     def _normalise_bodies(self):
-        from .normalise import inline_aliases, loops_to_comprehensions, positive_ifexps, unroll_literal_loops, updates_to_loops, inline_single_use_temps, forward_attr_stores, searches_to_loops
+        from .normalise import inline_aliases, loops_to_comprehensions, positive_ifexps, unroll_literal_loops, updates_to_loops, inline_single_use_temps, forward_attr_stores, searches_to_loops, genexp_loops
 
         self.normalised: List[str] = []
         for f in list(self.funcs.values()):
@@ -155,6 +155,7 @@ class Tree:
             positive_ifexps(f.node)
             unroll_literal_loops(f.node)
             updates_to_loops(f.node)
+            genexp_loops(f.node)
             searches_to_loops(f.node)
             inline_single_use_temps(f.node)
             forward_attr_stores(f.node)
